@@ -164,7 +164,15 @@ def g_gmm(draw):
     upd = [bool(u) for u in gen.choice(draw, [(1, 1, 1), (0, 1, 0), (1, 1, 0), (0, 1, 1), (1, 0, 1), (1, 0, 0),
                                               (0, 0, 1)])]
     trainer = gen.choice(draw, ["ml", "map", "ml"])
+    unset = None
+    if trainer == "ml" and gen.choice(draw, [False, False, True]):
+        # means and floors configured by hand, variances left to the documented fallback (1.0) of fit; the floors
+        # may lie above that fallback
+        shape = gen.choice(draw, ["scalar", "vector", "matrix"])
+        vals = r.choice([1e-3, 0.5, 2.0, 4.0, 25.0], size=(C, F))
+        unset = float(vals[0, 0]) if shape == "scalar" else (vals[0] if shape == "vector" else vals)
     return {"X": X, "init": init, "upd": upd, "kinds": kinds, "starved": bool(starved), "trainer": trainer,
+            "variances_unset_floors": unset,
             "K": gen.integer(draw, 1, 6), "count_floor": gen.choice(draw, [EPS, 1e-6, 1e-3]),
             "relevance": float(10.0 ** gen.integer(draw, -3, 3)), "dask": gen.boolean(draw),
             "chunks": gen.composition(draw, X.shape[0], max_parts=4)}
@@ -177,6 +185,19 @@ def c_gmm(ctx, case):
     data = sut.dask_rows(X, case["chunks"]) if case["dask"] else X
     kw = dict(convergence_threshold=None, max_fitting_steps=1, update_means=upd[0], update_variances=upd[1],
               update_weights=upd[2], mean_var_update_threshold=case["count_floor"])
+    unset = case.get("variances_unset_floors")
+    if unset is not None:
+        g = sut.GMMMachine(n_gaussians=init["C"], trainer="ml", **kw)
+        g.variance_thresholds = np.array(unset, dtype=float) if np.ndim(unset) else float(unset)
+        g.means = np.array(init["means"], dtype=float)
+        g.weights = np.array(init["weights"], dtype=float)
+        floors_now = np.broadcast_to(np.asarray(unset, float), init["means"].shape)
+        for k in range(1, case["K"] + 1):
+            g.fit(data)
+            check_gmm_valid(ctx, g, X, case["count_floor"], floors_now, "model (variances left to fit's fallback) after iteration %d" % k)
+        ctx.note(bool((floors_now > 1).any()), "variances-unset", "floor>1" if (floors_now > 1).any() else "floor<=1",
+                 "upd:%d%d%d" % tuple(int(u) for u in upd), "dask" if case["dask"] else "numpy")
+        return
     if case["trainer"] == "ml":
         g = sut.make_gmm(init, trainer="ml", **kw)
     else:
